@@ -459,6 +459,10 @@ def rule_writer(ck, wf, consts, direct, ext):
             for n, _c in writes:
                 sts += [u for _e, u in X.states_at(seen, n)]
             ck.ob(RT, wf, wf.node, len(sts) >= 1, "payload length %d, mask_outgoing=%s: the frame is written" % (v, mask_out), construct="write reached len=%d mask=%s: %s" % (v, mask_out, bool(sts)))
+            wid = {n.id for n, _c in writes}
+            cnt = explore(wf.cfg, 0, lambda n, val: min(val + (1 if n.id in wid else 0), 2), lambda t: False, follow_exc=False)
+            cs_ = {val for _f, val in cnt.get(wf.cfg.exit.id, ())}
+            ck.ob(RT, wf, wf.node, cs_ <= {1} and bool(cs_), "every normal path of _write_frame hands the frame to the stream exactly once (counts %s)" % sorted(cs_), construct="stream.write per path: %s" % sorted(cs_))
             for u in sts:
                 n_cases += 1
                 # header packs: first is the flags/opcode byte, second the length
@@ -750,12 +754,12 @@ def run(ck):
     ck.rule("C14.rsv1-flag", "_receive_frame: with a decompressor negotiated, _frame_compressed equals the RSV1 bit of the first frame of the message whenever that frame is consumed")
     ck.rule("C14.inflate", "_handle_message: a data message is inflated before delivery iff its compressed flag is set")
     ck.rule("C14.codec", "_handle_message: opcode 1 delivers the strict UTF-8 decoding, opcode 2 the bytes")
-    ck.rule("C14.reassembly", "_receive_frame: fragments are appended in order, the final continuation dispatches saved opcode + whole buffer and clears it; unfragmented/control frames dispatch their own payload and leave the buffer alone")
-    ck.rule("C14.len-table", "length encoder (_write_frame) and decoder (_receive_frame) agree for every boundary length: direct 0..125, 126 -> !H, 127 -> !Q")
+    ck.rule("C14.reassembly", "_receive_frame: fragments are appended in order, the final continuation dispatches saved opcode + whole buffer and clears it; unfragmented/control frames dispatch their own payload and leave the buffer alone; continuation/empty frames are never refused because a buffer or payload is empty (concrete buffer models in the field's own representation); _read_bytes is an exact read")
+    ck.rule("C14.len-table", "length encoder (_write_frame) and decoder (_receive_frame) agree for every boundary length: direct 0..125, 126 -> !H, 127 -> !Q; the frame is handed to the stream exactly once")
     ck.rule("C14.len-minimal", "the writer uses the minimal length encoding")
-    ck.rule("C14.mask", "mask bit and payload masking agree: writer masks with a fresh 4-byte key iff mask_outgoing; reader unmasks with the frame's key iff the mask bit is set")
+    ck.rule("C14.mask", "mask bit and payload masking agree: writer masks with a fresh 4-byte key iff mask_outgoing; reader consumes the 4-byte key iff the mask bit is set (also for empty payloads) and unmasks with it; clients are built masking, servers not")
     ck.rule("C14.header-bits", "FIN/RSV/OPCODE bit constants follow RFC 6455 and the writer composes the first byte from fin, opcode, flags")
-    ck.rule("C14.deflate-pairing", "permessage-deflate: sync-flush tail stripped/re-appended (4 bytes 00 00 ff ff), raw deflate on both sides, persistent object iff context takeover, own side compresses / peer side decompresses, RSV1 iff compressed, opcode by `binary`")
+    ck.rule("C14.deflate-pairing", "permessage-deflate: sync-flush tail stripped/re-appended (4 bytes 00 00 ff ff), raw deflate on both sides, persistent object iff context takeover, own side compresses / peer side decompresses (server code says 'server', client code 'client'), negotiated window bits reach zlib, RSV1 iff compressed, opcode by `binary`")
     ck.rule("C14.ordered", "the future of an asynchronous on_message is returned by _handle_message and awaited by _receive_frame before the next frame")
 
     consts = X.class_consts(ck.repo, W, P13)
@@ -850,6 +854,7 @@ MUTANTS = [
     ("mask key not consumed for empty masked payloads", _in(P13 + "._receive_frame", replace_stmt(lambda st: isinstance(st, ast.If) and _src(st.test) == "is_masked" and "_read_bytes(4)" in _src(st), lambda st: [ast.If(test=parse_expr("is_masked and payloadlen"), body=st.body, orelse=[])])), "C14.mask"),
     ("negotiated window bits ignored", _in(P13 + "._get_compressor_options", replace_expr(lambda n: q.is_call(n, "int"), lambda n: parse_expr("zlib.MAX_WBITS"))), "C14.deflate-pairing"),
     ("compressed payload computed but the original is sent (with RSV1)", _in(P13 + ".write_message", replace_stmt(lambda st: isinstance(st, ast.Assign) and ".compress(" in _src(st), lambda st: [ast.Expr(value=st.value)])), "C14.deflate-pairing"),
+    ("frame handed to the stream twice", _in(P13 + "._write_frame", replace_stmt(lambda st: isinstance(st, ast.Return), lambda st: [parse_stmt("self.stream.write(frame)"), st])), "C14.len-table"),
     ("control-frame branch resets the reassembly buffer", _in(P13 + "._receive_frame", _ctl_branch_touches_buffer), "C14.ctl-no-msg-state"),
     ("continuation frames rewrite _frame_compressed (opcode != 0 dropped)", _in(P13 + "._receive_frame", replace_expr(lambda n: isinstance(n, ast.BoolOp) and "opcode != 0" in _src(n) and "_decompressor" in _src(n), lambda n: ast.BoolOp(op=n.op, values=[v for v in n.values if _src(v) != "opcode != 0"]))), "C14.ctl-no-msg-state"),
     ("undo the F11 repair (header side): control frames rewrite _frame_compressed", _in(P13 + "._receive_frame", replace_expr(lambda n: isinstance(n, ast.BoolOp) and "opcode != 0" in _src(n) and "_decompressor" in _src(n), lambda n: parse_expr("self._decompressor is not None and opcode != 0"))), "C14.ctl-no-msg-state"),
